@@ -589,7 +589,7 @@ IMPORTS = 'Gen_path Gen_compact Gen_sqlbatch CacheMap FileCache SqlCache CacheBa
 COORD_EDGE = [0, 1, 2, 3, 126, 127, 128, 129, 255, 256, 999, 1000, 1001, 1999, 2000, 9999, 10000, 10001, 19999, 20000,
               65535, 65536, 999999, 1000000, 1000001, 1001000, 1999999, 2000000, 9999999, 10000000, 10000001, 11000000]
 LEVELS = [0, 1, 2, 3, 4, 9, 10, 11, 12, 19, 20, 21]
-DIM_VALUES = ['a', 'b', 'A', 'a/b', 'a_b', 'a%2Fb', 'a\\b', '..', '../x', '%', '%25', '2020-08-25T00:00:00Z',
+DIM_VALUES = ['', 'a', 'b', 'A', 'a/b', 'a_b', 'a%2Fb', 'a\\b', '..', '../x', '%', '%25', '2020-08-25T00:00:00Z',
               '2020-08-25T00:00:01Z', 'default', 'x-y', 'x', ' ', 'a b']
 DIM_KEYSETS = [(), ('time',), ('time',), ('elevation', 'time'), ('time', 'dim_level'), ('dim_b', 'dim_a', 'time')]
 
@@ -891,6 +891,29 @@ def colour_probes(pay):
     return out
 
 
+def dimension_value_probes():
+    """dimension values that differ only where one of them is empty / the literal 'default' / differs in case or by
+    one character: different addresses on every layout that supports dimensions"""
+    out = []
+    vals = ['', 'default', 'Default', 'default ', '0', 'None', '-', 'a', 'a-']
+    for lay in ('tc', 'mp', 'tms', 'reverse_tms'):
+        for link in ('none', 'hardlink'):
+            for key in ('time', 'elevation', 'dim_level'):
+                addrs = [(3, 4, 2, ((key, v),)) for v in vals]
+                ops = [('load', addrs[1]), ('store', addrs[0], 6), ('load', addrs[1]), ('cached', addrs[1]), ('store', addrs[1], 7),
+                       ('load', addrs[0]), ('load', addrs[1])]
+                ops += [('store', a, 8 + i) for i, a in enumerate(addrs[2:])]
+                ops += [('load', a) for a in addrs]
+                ops += [('remove', addrs[1]), ('load', addrs[0]), ('cached', addrs[0]), ('remove', addrs[0]), ('load', addrs[1]),
+                        ('load_many', [(3, 4, 2)], ((key, ''),)), ('load_many', [(3, 4, 2)], ((key, 'default'),))]
+                # two dimensions, one of them empty
+                two = [(3, 4, 2, (('time', tv), ('elevation', ev))) for (tv, ev) in
+                       (('', ''), ('', 'default'), ('default', ''), ('default', 'default'))]
+                ops += [('store', a, 14 + i) for i, a in enumerate(two)] + [('load', a) for a in two]
+                out.append(({'kind': 'file', 'layout': lay, 'link': link}, ops, 'probe:dimension-values'))
+    return out
+
+
 def bulk_store_dup_probes():
     """a bulk store is a sequence of stores: the last tile of the list that names an address decides"""
     out = []
@@ -942,7 +965,7 @@ def path_cases(ctx, terms, descr):
     from mapproxy.cache.file import FileCache
     from mapproxy.cache.tile import Tile
     rng = ctx.rng
-    n = ctx.n(600, 6000)
+    n = ctx.n(420, 6000)
     caches = {lay: FileCache('/CD', 'png', directory_layout=lay) for lay in LAYOUTS}
     for i in range(n):
         lay = LAYOUTS[i % len(LAYOUTS)]
@@ -973,7 +996,7 @@ def slot_cases(ctx, terms, descr):
     from mapproxy.cache.compact import CompactCacheV1, CompactCacheV2, BundleV1, BundleIndexV1, BundleV2
     rng = ctx.rng
     c1 = CompactCacheV1('/CD')
-    n = ctx.n(500, 4000)
+    n = ctx.n(300, 4000)
     for i in range(n):
         if rng.random() < 0.6:
             x, y = rng.choice(COORD_EDGE), rng.choice(COORD_EDGE)
@@ -1328,7 +1351,8 @@ def run(ctx):
     todo += compact_probes()
     todo += layout_probes()
     todo += colour_probes(pay)
-    todo += bulk_store_dup_probes()
+    todo += [c for c in bulk_store_dup_probes() if not ctx.quick or c[0].get('link', 'none') == 'none']
+    todo += [c for c in dimension_value_probes() if not ctx.quick or c[0]['link'] == 'none']
 
     cfgs = all_configs()
     # 2. bounded exhaustive short histories over three colliding addresses (each from the empty state of the
@@ -1357,7 +1381,7 @@ def run(ctx):
             else:
                 alpha = exhaustive_alphabet(tr, p, q)
             hists = list(itertools.product(alpha, repeat=ex_len))
-            cap = ctx.n(80 if slow else 150, 800 if slow else 2000)
+            cap = ctx.n(70 if slow else 120, 800 if slow else 2000)
             if len(hists) > cap:
                 hists = rng.sample(hists, cap)
             # a sample of longer ones
@@ -1369,7 +1393,7 @@ def run(ctx):
     # 3. random long histories on colliding pools
     for cfg in cfgs:
         slow = cfg['kind'] in SQL_KINDS
-        for _ in range(ctx.n(3 if slow else 6, 30 if slow else 60)):
+        for _ in range(ctx.n(3 if slow else 4, 30 if slow else 60)):
             pool = gen_pool(rng, cfg, rng.choice([3, 4, 6, 8, 10, 14]))
             length = rng.choice([10, 30, 60, 120, 200]) if not (slow and ctx.quick) else rng.choice([10, 30, 60])
             todo.append((cfg, gen_ops(rng, pay, pool, length, cfg.get('link', 'none') != 'none',
